@@ -484,6 +484,14 @@ class SymExec:
             return self.block(s.body, [a], depth) + self.block(s.orelse, [b], depth)
         if isinstance(s, ast.For) and not s.orelse:
             elems = self._literal_elems(s.iter)
+            if elems is None:
+                # the iterable evaluates to a tuple/list term (a table passed as an argument or built locally)
+                try:
+                    tv = self.ev(s.iter, st, depth)
+                except _Fork:
+                    tv = None
+                if isinstance(tv, tuple) and tv and tv[0] in ('tuple', 'list') and all(isinstance(x, tuple) for x in tv[1:]):
+                    elems = [('__term__', x) for x in tv[1:]]
             if elems is not None and len(elems) <= 32:
                 # a loop over a literal table is unrolled: table-driven dispatch is decided exactly
                 states = [st]
@@ -493,7 +501,7 @@ class SymExec:
                         if cur.status != 'run':
                             nxt.append(cur)
                             continue
-                        self.assign(s.target, self.ev(e, cur, depth), cur, depth, s)
+                        self.assign(s.target, e[1] if (isinstance(e, tuple) and e and e[0] == '__term__') else self.ev(e, cur, depth), cur, depth, s)
                         outs = self.block(s.body, [cur], depth)
                         for o in outs:
                             if o.status == 'continue':
